@@ -5,7 +5,7 @@
    are root stores, cascade deletes follow a strictly increasing store rank, i.e. no cascade cycle). *)
 From Coq Require Import List NArith Bool Permutation.
 From Storage Require Import Base.Bytes Store.Model Store.Events Store.EventProofs Store.EventAnyProofs
-  Store.TxHooks Store.TxHooksProofs Store.EventsMulti Store.EventMultiProofs.
+  Store.TxHooks Store.TxHooksProofs Store.EventsMulti Store.EventMultiProofs Store.TxShared Store.TxSharedProofs.
 Import ListNotations.
 
 (* A committed transaction delivers, as a multiset, exactly the expected events: for each successful
@@ -240,3 +240,56 @@ Theorem nested_join_transparent : forall sch fuel st sys vetoes ctx0 body,
   nest_free (flatten body) = true.
 Proof. exact nested_join_transparent_lemma. Qed.
 Print Assumptions nested_join_transparent.
+
+(* ---- contexts built AROUND an existing bbolt transaction (NewTxMutateContext; Store/TxShared.v): the caller manages
+   the transaction itself (opener ByCaller: bbolt Begin(true) .. Commit / Rollback, bbolt's own Update / Batch) and wraps
+   it, and / or the function of a running transaction builds a SECOND context around ctx.Tx() and does part of its work
+   with it ([TCtx body]).  Db.Update / Db.Batch called with such a context join the transaction ([HNest]). ---- *)
+
+(* Results, commit flag, state and delivered events are those of the instrumented machine run on the program's
+   operations - a pre-commit action can fail the transaction only when somebody runs it ([live_pres]: the primary
+   context of a transaction Db.Update / Db.Batch opened); so every event theorem above applies. *)
+Theorem shared_update_refines_run_tx_v : forall sch fuel st sys vetoes opn ctx0 prog,
+  let o := shared_update sch fuel st sys vetoes opn ctx0 prog in
+  let v := run_tx_v sch fuel st (shared_tx opn sys vetoes ctx0 prog) in
+  ho_results o = to_results v /\ ho_committed o = to_committed v /\ ho_state o = to_state v /\ ho_events o = to_events v.
+Proof. exact shared_update_refines_lemma. Qed.
+Print Assumptions shared_update_refines_run_tx_v.
+
+(* The rule next to hooks_exactly_once.  Commit: the commit-action executions are exactly the registrations on the
+   primary context (before the first item, by the items incl. nested joins, by its pre-commit actions when they run)
+   followed by those on every secondary context, each once - whoever opened the transaction; the pre-commit actions that
+   ran are those of the primary context of a transaction Db.Update / Db.Batch opened, each once ([live_pres] is [] for a
+   caller-managed transaction, and never contains a registration on a secondary context); each tx-complete listener once
+   iff Db.Update / Db.Batch opened the transaction ([tc_runs]).  Rollback (by Db.Update or by the caller): no commit
+   action, no tx-complete listener, no event, state unchanged.  A failed operation: rollback, no pre-commit action ran. *)
+Theorem shared_hooks_exactly_once : forall sch fuel st sys vetoes opn ctx0 prog,
+  let o := shared_update sch fuel st sys vetoes opn ctx0 prog in
+  (ho_committed o = true ->
+     ho_commit_runs o = shared_registered_commits opn ctx0 prog /\
+     ho_pre_runs o = map fst (live_pres opn ctx0 prog) /\
+     ho_tc o = tc_runs opn) /\
+  (ho_committed o = false ->
+     ho_commit_runs o = [] /\ ho_tc o = 0%nat /\ ho_events o = [] /\ ho_state o = st) /\
+  (forall k, In (Some k) (ho_results o) -> ho_committed o = false /\ ho_pre_runs o = []).
+Proof. exact shared_hooks_exactly_once_lemma. Qed.
+Print Assumptions shared_hooks_exactly_once.
+
+(* The caller-managed transaction spelled out: it commits iff every operation succeeded (no pre-commit action can
+   fail it: none runs), no tx-complete listener is involved, and after the commit the commit actions of all its
+   contexts ran exactly once each. *)
+Theorem caller_tx_hooks : forall sch fuel st sys vetoes ctx0 prog,
+  let o := shared_update sch fuel st sys vetoes ByCaller ctx0 prog in
+  (ho_committed o = true <-> (forall r, In r (ho_results o) -> r = None)) /\
+  ho_pre_runs o = [] /\ ho_tc o = 0%nat /\
+  (ho_committed o = true ->
+     ho_commit_runs o = (mc_commit ctx0 ++ own_commits prog) ++ flat_map mc_commit (sec_ctxs prog)).
+Proof. exact caller_tx_hooks_lemma. Qed.
+Print Assumptions caller_tx_hooks.
+
+(* A program without secondary contexts in a transaction Db.Update / Db.Batch opened is a program of Store/TxHooks.v:
+   [shared_update] extends [db_update], so hooks_exactly_once is the special case. *)
+Theorem shared_update_extends_db_update : forall sch fuel st sys vetoes ctx0 body,
+  shared_update sch fuel st sys vetoes ByDb ctx0 (map TOwn body) = db_update sch fuel st sys vetoes ctx0 body.
+Proof. exact shared_update_own_lemma. Qed.
+Print Assumptions shared_update_extends_db_update.
